@@ -349,7 +349,9 @@ func orAlternatives(t *rapid.T, n *model.Node, o ScalarOpts, label string) []mod
 	var alts []model.Val
 	for i := 0; i < cnt; i++ {
 		l := fmt.Sprintf("%salt%d", label, i)
-		switch rapid.IntRange(0, 4).Draw(t, l+"k") {
+		switch rapid.IntRange(0, 5).Draw(t, l+"k") {
+		case 5: // a rule-set that is an enum
+			alts = append(alts, model.Set(model.R("type", model.Str("enum")), model.R("enum", model.List(enumItems(t, n.Lit, n.Kind, l)...))))
 		case 0: // rule-set of the example's kind with rules near the example
 			rs := []model.Rule{model.R("type", model.Str(n.Kind))}
 			switch n.Kind {
